@@ -90,6 +90,11 @@ def build_specs(ctx, workdir):
     for expr in ("[U.SometimesRaises(True), {'k': U.SometimesRaises(True)}]", "{'h': U.SometimesRaises(False)}", "[U.SometimesRaises(False)]",
                  "[1, U.RaisesStopIteration(), 2]", "U.RaisesGetstate()", "[U.Plain(1, 2), U.RaisesReduce()]"):
         specs.append(("dumps-expr", expr)); names.append(f"dumps-expr:{expr[:40]}")
+    # values that are equal (and hash alike) without being the same value: what a cache keyed on the value would confuse
+    for expr in ("{'z': -0.0}", "{'z': 0.0}", "[0.0]", "[-0.0]", "U.Plain(-0.0, 0)", "U.Plain(0.0, 0)", "{'t': 1, 'u': True, 'v': 1.0}",
+                 "{'t': True, 'u': 1.0, 'v': 1}", "[1e16, 10000000000000000]", "[10000000000000000, 1e16]", "{'s': 'é', 'n': 'e\u0301'}",
+                 "np.float64(-0.0)", "np.float64(0.0)", "(0, False, 0.0, -0.0)", "(-0.0, 0.0, False, 0)"):
+        specs.append(("dumps-expr", expr)); names.append(f"dumps-expr:{expr[:40]}")
     # archives in the layouts of older protocols: their loaders are part of "the registries are filled once at import"
     for name, o in objs:
         if name not in ("ft", "gen", "dict", "partial", "pipe"):
@@ -291,8 +296,12 @@ def run(ctx):
         ofails.append((f"cards-share-state: two Card instances hold the very same container in {shared}", dict(kind="calls", mode="cards")))
     c1.add(**{"Only in one": "x"})
     c1.add_metrics(only_one=1)
-    if "Only in one" in c2.render() or "only_one" in c2.render():
-        ofails.append(("cards-share-state: a section/metric added to one card shows up in another", dict(kind="calls", mode="cards")))
+    try:
+        if "Only in one" in c2.render() or "only_one" in c2.render():
+            ofails.append(("cards-share-state: a section/metric added to one card shows up in another", dict(kind="calls", mode="cards")))
+    except Exception as ex:
+        ofails.append((f"cards-share-state: after the calls above, rendering a card that was just created raised {type(ex).__name__}: {str(ex)[:120]}",
+                       dict(kind="calls", mode="cards")))
     # ---- T1: failing frame facts name their call sites
     broken_facts = [k for k, v in facts["facts"].items() if not v]
     if broken_facts and not ofails:
